@@ -130,9 +130,10 @@ def _run(ctx, work):
     src = '#include <stdio.h>\n#include <stddef.h>\n#include "tfhe.h"\n#include "tfhe_io.h"\n#ifdef __cplusplus\n#define ALIGNOF(t) alignof(t)\n#else\n#define ALIGNOF(t) __alignof__(t)\n#endif\nint main(void) {\n' + '\n'.join(body) + '\n  return 0;\n}\n'
     views = {}
     # the C view is the project's own C mode (-std=c99); later C standards and both C++ standards must see the same objects
-    for lang, comp, std, ext in (('c', 'gcc', '-std=c99', 'c'), ('cpp', 'g++', '-std=gnu++11', 'cpp'), ('c11', 'gcc', '-std=gnu11', 'c'), ('c17', 'gcc', '-std=gnu17', 'c'), ('cpp17', 'g++', '-std=gnu++17', 'cpp')):
+    for lang, comp, std, ext in (('c', 'gcc', '-std=c99', 'c'), ('cpp', 'g++', '-std=gnu++11', 'cpp'), ('c11', 'gcc', '-std=gnu11', 'c'), ('c17', 'gcc', '-std=gnu17', 'c'), ('cpp17', 'g++', '-std=gnu++17', 'cpp'),
+                                 ('c-ndebug', 'gcc', '-std=c99', 'c'), ('cpp-ndebug', 'g++', '-std=gnu++11', 'cpp')):
         p = os.path.join(work, 'probe_%s.%s' % (lang, ext)); open(p, 'w').write(src)
-        rc, out = sh([comp, std, '-Wno-invalid-offsetof', '-I', INC, p, '-o', p + '.exe'])
+        rc, out = sh([comp, std, '-Wno-invalid-offsetof'] + (['-DNDEBUG', '-O2'] if lang.endswith('-ndebug') else []) + ['-I', INC, p, '-o', p + '.exe'])   # the optimised libraries are built with NDEBUG, a client need not be
         if rc != 0:
             ctx.report('probe-' + lang, 'layout probe does not compile as %s: %s' % (lang, out.strip().split('\n')[0][:300]), {'log': out[-2000:]}); views[lang] = {}; continue
         rc, out = sh([p + '.exe'])
@@ -150,6 +151,23 @@ def _run(ctx, work):
             rc, out = sh(['nm', '-D', '--defined-only', os.path.join(bdir, 'libtfhe', 'libtfhe-%s.so' % be)])
             # strong (T) and weak (W) function definitions: both resolve a reference from a client
             libs['%s-%s' % (be, variant)] = sorted({l.split()[2] for l in out.splitlines() if len(l.split()) == 3 and l.split()[1] in ('T', 'W') and not l.split()[2].startswith('_Z')})
+    # 4b. what each variant puts behind the two pointers of the public LagrangeHalfCPolynomial (data: the polynomial's own buffer of N
+    #     doubles, zero after Clear; precomp: the processor shared by all polynomials of a thread), seen by a C99 client
+    csrc = ('#include <stdio.h>\n#include <string.h>\n#include "tfhe.h"\n#include "lagrangehalfc_arithmetic.h"\nint main(void) {\n'
+            '  LagrangeHalfCPolynomial *p = new_LagrangeHalfCPolynomial_array(2, 1024); int bad = 0, i; double z[1024];\n'
+            '  LagrangeHalfCPolynomialClear(p); LagrangeHalfCPolynomialClear(p + 1); memset(z, 0, sizeof z);\n'
+            '  if (p[0].data == p[1].data) bad |= 1; if (p[0].precomp != p[1].precomp) bad |= 2; if (!p[0].data || !p[0].precomp) bad |= 4;\n'
+            '  if (!(bad & 5) && memcmp(p[0].data, z, sizeof z)) bad |= 8;\n'
+            '  (void) i; printf("%d\\n", bad); delete_LagrangeHalfCPolynomial_array(2, p); return 0; }\n')
+    cp = os.path.join(work, 'objprobe.c'); open(cp, 'w').write(csrc)
+    obdir = vlib.build_lib('optim')
+    for be in vlib.BACKENDS:
+        ctx.count(('objprobe', be))
+        rc, out = sh(['gcc', '-std=c99', '-O0', '-I', INC, cp, '-o', cp + '.' + be, '-L', os.path.join(obdir, 'libtfhe'), '-ltfhe-' + be, '-Wl,-rpath,' + os.path.join(obdir, 'libtfhe')])
+        if rc != 0: ctx.report('objprobe-link-' + be, 'a C99 client using the public LagrangeHalfCPolynomial does not link against %s: %s' % (be, out.strip().split('\n')[-1][:200]), {'backend': be, 'log': out[-1500:]}); continue
+        rc, out = sh([cp + '.' + be])
+        if rc != 0 or out.strip() != '0':
+            ctx.report('object-contents-' + be, 'variant %s: the fields of the public LagrangeHalfCPolynomial do not hold what the header documents (flags %s: 1 data shared between polynomials, 2 precomp not shared, 4 null, 8 data is not the zeroed buffer after Clear); the other variants do' % (be, out.strip() or rc), {'backend': be, 'flags': out.strip()})
     # 5. assembly displacements vs the C++ structure of the spqlios back-end
     asm = {}
     spq = os.path.join(vlib.REPO, 'src', 'libtfhe', 'fft_processors', 'spqlios')
@@ -200,7 +218,7 @@ def _run(ctx, work):
             ctx.report('struct-virtual-' + s, 'public structure %s has a virtual member or a base class in its C++ view' % s, {'struct': s})
         if cs[s]['members'] != xs.get(s, {}).get('members'):
             ctx.report('struct-members-' + s, 'C and C++ views of %s list different data members: %s vs %s' % (s, cs[s]['members'], xs.get(s, {}).get('members')), {'struct': s, 'c': cs[s]['members'], 'cpp': xs.get(s, {}).get('members')})
-        for other in ('c11', 'c17', 'cpp17'):
+        for other in ('c11', 'c17', 'cpp17', 'c-ndebug', 'cpp-ndebug'):
             o = views.get(other, {}).get(s)
             if o is not None and o != c:
                 ctx.report('struct-layout-%s-%s' % (s, other), 'size/offsets of %s differ between C99 (%s) and %s (%s)' % (s, c, other, o), {'struct': s, 'c99': c, other: o})
